@@ -55,7 +55,7 @@ def functionOk (m flag : String) (evs : List Evt) : Bool :=
 def serverFunctions : List String :=
   ["sendText", "sendBinary", "sendPing", "sendClose", "handleFrame", "handleDataFrame", "onUpgradedData"]
 def clientFunctions : List String :=
-  ["sendText", "sendBinary", "sendPing", "sendClose", "handleFrame", "handleDataFrame", "handleData"]
+  ["sendText", "sendBinary", "sendPing", "sendClose", "handleFrame", "handleDataFrame", "handleData", "teardownTransport"]
 
 def disciplined (names : List String) (m flag : String) (sk : Skeleton) : Bool :=
   sk.map (·.1) == names && sk.all (fun f => functionOk m flag f.2)
